@@ -106,6 +106,9 @@ Holds(e, name) ==
     [] name = "C06_UpwindConst"  -> C06_AdvConst(g, MatOf(o.Mup), FieldOf(g, o.divu))
     [] name = "C06_UpwindAltConst" -> C06_AdvConst(g, MatOf(o.Mupalt), FieldOf(g, o.divu))
     [] name = "C06_SourceDiag" -> C06_SourceDiag(g, MatOf(o.Msrc), IntFieldOf(g, cf.beta))
+    [] name = "C06_SourceForms" ->
+         /\ \A k \in DOMAIN o.srcforms.M : C06_SourceDiag(g, MatOf(o.srcforms.M[k]), IntFieldOf(g, cf.beta))
+         /\ \A k \in DOMAIN o.srcforms.R : C06_SourceVec(g, FieldOf(g, o.srcforms.R[k]), IntFieldOf(g, cf.gamma))
     [] name = "C06_SourceVec"  -> C06_SourceVec(g, FieldOf(g, o.Rsrc), IntFieldOf(g, cf.gamma))
     [] name = "C01_ClosedDiffusion" -> C01_ClosedMatrix(g, V, MatOf(o.Mdiff))
     [] name = "C01_ClosedCentral"   -> C01_ClosedMatrix(g, V, MatOf(o.Mconv))
